@@ -1,13 +1,14 @@
 """C07 - a registration becomes usable only when every admission condition holds.
 
-A  TLC on spec/Admission over the FULL table (2 064 384 rows: message fields x station configuration x liveness verdict):
+A  TLC on spec/Admission over the FULL table (5 013 504 rows: message fields x registrar override (none / same family /
+   an IPv4 address in the IPv6 override field) x station configuration x liveness verdict):
    the staged transcription of the code agrees with the declarative statement of the property (AgreesWithStatement),
    ProbeOnlyWhenRequired, NoWastedProbe, ShareRules, and Necessary (every admission condition flipped alone rejects).
    A broken transcription (covert check skipped) must violate.
 B  rows emitted by TLC with the outcome the specification computes are executed on the real parseRegMessage +
    ingestRegistration (real C2SWrapper bytes, RegistrationManager configured per row, scripted liveness tester that
    counts probes, recorded detector announcements, httptest peer endpoint that counts and decodes shared registrations):
-   quick = every admitted row and all single-condition neighbours (17 920 rows) + 20 000 seeded random rows;
+   quick = every admitted row and all single-condition neighbours (39 200 rows) + 20 000 seeded random rows;
    thorough = 400 000 seeded random rows in addition.
 C  "passed on to peer stations at most once per client registration" under real concurrency: 8 workers ingest one detector
    registration at the same instant (250 / 1 500 rounds, no gates); probes, shares and announcements must be exactly one.
@@ -28,7 +29,11 @@ def run(ctx):
     b = ctx.tlc(sdir, "Admission.tla", "MC_Admission_broken.cfg", timeout=600, count=False)
     if b["inv"] != "AgreesWithStatement":
         raise vlib.InfraError("broken transcription should violate AgreesWithStatement, got %s" % b["inv"])
-    ctx.stage("A", rows=r["distinct"] // 2, exhaustive=True, nonvacuity="transcription without the covert check violates AgreesWithStatement")
+    b2 = ctx.tlc(sdir, "Admission.tla", "MC_Admission_broken2.cfg", timeout=600, count=False)
+    if b2["inv"] not in ("AgreesWithStatement", "Necessary"):
+        raise vlib.InfraError("transcription checking the family before the override should violate AgreesWithStatement/Necessary, got %s" % b2["inv"])
+    ctx.stage("A", rows=r["distinct"] // 2, exhaustive=True, nonvacuity="transcription without the covert check violates AgreesWithStatement; "
+              "transcription that checks the address family before applying the registrar override violates %s" % b2["inv"])
 
     rows_file = os.path.join(ctx.scratch, "admission_rows.ndjson")
     counts = {}
@@ -89,4 +94,5 @@ def run(ctx):
     ctx.assumptions += ["'complete' is read as: payload present and parameters parseable (an absent/short shared secret is admitted by the station; "
                         "the registrars enforce its length) - DESIGN.md section 8",
                         "a construction error in one family's half aborts the whole message (modelled as implemented)",
-                        "registrar overrides and prefix parameters are exercised by C12 / C02, not here; library version = current"]
+                        "registrar address overrides are part of the table for registrar sources (the detector and peer stations never attach a "
+                        "registration response); port / transport-parameter overrides and prefix parameters are exercised by C12 / C02; library version = current"]
